@@ -53,7 +53,9 @@ BigUnions(P, lo, hi) == UNION {KUnions(P, n) : n \in lo..hi}
 CtxUser == {TCls("zutil.A"), TCls("zutil.zutil"), TCls("zutil.Outer.Inner"), TCls("zpkg.zutil.B"), TCls("zpkg.zutil.A"),
             TCls("zfoo.Baz"), TCls("barzfoo.Qux"), TCls("zfoo_v2.W"), TCls("_io.StringIO"),
             \* a package next to its own submodule; a module whose name ends with `typing`; `NoneType` inside a class name
-            TCls("zpkg.PkgTop"), TCls("zmytyping.Foo"), TCls("zmytyping.MyNoneTypeBox")}
+            TCls("zpkg.PkgTop"), TCls("zmytyping.Foo"), TCls("zmytyping.MyNoneTypeBox"),
+            \* a private top-level module (only `_io` has a public twin that re-exports its classes)
+            TCls("_zledger.Account")}
 CtxAtoms == CtxUser \cup {TCls("int"), TNone}
 
 TD1(fs) == TTD(fs)
